@@ -882,7 +882,8 @@ def corpus_frames():
     out = []
     specs = [("1005", dict(mode=('uniform', 1))), ("1004", dict(mode=('uniform', 2))), ("1230", dict(flags=5)), ("1029", dict(mode=('uniform', 3))),
              ("1077", dict(nsat=2, nsig=2, cellmask=3, maskmode='value', seed=1)), ("1124", dict(nsat=1, nsig=2, cellmask='ones', maskmode='value', seed=2)),
-             ("1059", dict(mode=('uniform', 2))), ("4076_025", dict(mode=('uniform', 1))), ("4076_201", dict(harm=(0, 2, 1))), ("1019", dict(mode=('uniform', 1)))]
+             ("1059", dict(mode=('uniform', 2))), ("4076_025", dict(mode=('uniform', 1))), ("4076_201", dict(harm=(0, 2, 1))), ("1019", dict(mode=('uniform', 1))),
+             ("4076_201", dict(harm=(1, 4, 2), harmvary=1)), ("1084", dict(nsat=3, nsig=2, cellmask=5, maskmode='value', seed=7))]
     for ident, st in specs:
         try:
             p, _ = structs.concrete_payload(ident, structs.chooser(st), rnd)
@@ -894,6 +895,25 @@ def corpus_frames():
     f = b"\xd3" + len(p).to_bytes(2, "big") + p
     out.append(f + crc24q_ref(f).to_bytes(3, "big"))
     return out
+
+
+def corpus_stream(seed=0):
+    """(stream bytes, list of frames with a message number in order): recorded-style mix of frames, NMEA, UBX and noise"""
+    import random
+    rnd = random.Random(seed)
+    frames = corpus_frames()
+    rnd.shuffle(frames)
+    out, exp = b"", []
+    for i, f in enumerate(frames[:7]):
+        if i % 3 == 0:
+            out += b"$GNGGA,1,2*33\r\n"
+        if i % 3 == 1:
+            out += b"\xb5\x62\x01\x07\x02\x00\xd3\x00\x11\x22"
+        if i % 4 == 2:
+            out += bytes(rnd.choice(b"\x00\x11\x7f\xfe") for _ in range(3))
+        out += f
+        exp.append(f)
+    return out, exp
 
 
 def replay_tables(case):
